@@ -272,7 +272,7 @@ CHECKS["C13"] = {
     "assumptions": CHECKS["C01"]["assumptions"] + ["clock: time.Now()/time.Since( in cleanup.go, broadcast.go, observation.go redirected mechanically to the harness clock (arbitrary non-decreasing instants); Duration.Minutes()/Hours() comparisons replaced by integer comparisons only after the equivalence was proved on the SSA-executed stdlib code"],
 }
 _c14 = (["m.plen=1;n=%d;kind=%d;stored=%d;reqQueueFull=%d" % (n, k, st, q) for n in (1, 3) for k in (0, 1, 2) for st in (0, 1) for q in (0, 1)] +
-        ["m.plen=1;n=0;kind=%d;stored=%d" % (k, st) for k in (1, 2) for st in (0, 1)])
+        ["m.plen=1;n=0;kind=2;stored=%d" % st for st in (0, 1)])
 CHECKS["C14"] = {
     "runs": [
         {"pkg": "./pkg/processor", "entry": "VerifC14_Tick", "reach": ["deleted", "kept", "retried"], "opts": _PROC_CLOCK_OPTS,
@@ -281,7 +281,7 @@ CHECKS["C14"] = {
         {"pkg": "./pkg/processor", "entry": "VerifC02_Loopback", "reach": ["end"], "opts": _PROC_CLOCK_OPTS},
     ],
     "bounds": {"quick": {"re-observation": "a second local observation of a pending or published message (n = 1..2) leaves firstObserved, lastRetry, retryCount, settled, submitted unchanged",
-                         "step": "ONE cleanup tick on ONE aggregation entry of any constructible kind {observed on chain, signatures only, injected}; firstObserved, lastRetry (or never retried) and the tick's clock readings arbitrary non-decreasing instants (64-bit monotonic nanoseconds); retryCount any 32-bit value; submitted/settled any; 0, 1 or 3 recorded signatures; guardian set of 1 or 3, or no set learned yet (injected / signatures-only entries); a quorum VAA for the message stored or not; re-observation request queue empty or full",
+                         "step": "ONE cleanup tick on ONE aggregation entry of any constructible kind {observed on chain, signatures only, injected}; firstObserved, lastRetry (or never retried) and the tick's clock readings arbitrary non-decreasing instants (64-bit monotonic nanoseconds); retryCount any 32-bit value; submitted/settled any; 0, 1 or 3 recorded signatures; guardian set of 1 or 3, or no set learned yet (then the entry is an operator injection - the only kind that can exist before the first set); optionally a store fault during the tick (the store was closed: lookups fail with badger.ErrDBClosed); a quorum VAA for the message stored or not; re-observation request queue empty or full",
                          "unwind": 3000},
                "thorough": {"step": "same, message payload 0..2 bytes"}},
     "outside": "sequences of ticks are covered inductively only through the per-tick obligations (discard-only-with-cause, retry-only-when-due, per-tick progress); several entries per tick (the loop body does not couple entries except through the shared channels, whose capacity is not exhausted by one entry); the Discord notifier (nil); real timers",
